@@ -30,7 +30,8 @@ SPEC = 'MCZBlob'
 DESIGN_INV = ['TypeOK', 'NoViolation', 'UncommittedInvisible', 'SnapshotsReadable', 'NothingLeftBehind', 'DerivedExact']
 DESIGN_PROPS = ['CommittedFilesImmutable', 'PackRemovesExactly']
 REPAIRED = dict(AbortNeedsVote=False, NonUndoPack=False, SpbPerSerial=False)
-FLAVOURS = ('mixin', 'wrapmap')
+FLAVOURS = ('mixin', 'wrapmap', 'wrapfile')
+UNDO = ('mixin', 'wrapfile')          # flavours with DB.undo; 'wrapfile' has no pack in the model
 
 # deviation constant -> (finding, flavours it can show on, relation and constants of the counterexample run, invariant)
 DEVIATIONS = {
@@ -56,8 +57,9 @@ ASSUME = ['TLC results are exhaustive only within the stated constants (1 blob, 
           'pack times are whole-second boundaries, one transaction per second (fake clock)',
           'the packers are the ZPackOps transcriptions validated against the code by C07',
           'files under tmp/ that no object owns any more are counted, not judged (DESIGN notes on C13)',
-          'BlobStorage over an undo-capable storage (BlobStorage.undo, _packUndoing) is outside the two flavours the '
-          'property quantifies over',
+          'third flavour BlobStorage(FileStorage without blob_dir): commit, abort at every phase, undo / redo / aborted undo '
+          'through BlobStorage.undo are modelled and replayed; its pack (_packUndoing over a packed FileStorage) is not, and '
+          'the write-permission bits of the copies BlobStorage.undo writes are compared but not judged',
           'fsync is switched off in the replays (durability is not part of C13)',
           'c1 minimizes its cache at the end of each of its transactions (a Blob object activated while a stale savepoint '
           'file shadowed its committed file keeps that path: a consequence of F3 that depends on the cache, not judged apart)',
@@ -190,7 +192,7 @@ def directed(flavour, quick=False, packs_only=False):
             S.append(first + bs.modify_p('v2') + bs.savepoint() + bs.consume(2, 'b') + bs.savepoint() + bs.rollback(k) + bs.append(2, 'a') + bs.commit(end))
             S.append(bs.create(('a',)) + bs.savepoint() + bs.create(('b',)) + bs.append(2, 'b') + bs.savepoint() + bs.rollback(k) + bs.rollback(1) + bs.create(('b',)) + bs.commit(end) + bs.commit())
         S.append(first + bs.rewrite(2, 'b') + bs.savepoint() + bs.abort_txn() + bs.append(2, 'b') + bs.commit(end))
-    if flavour == 'mixin':
+    if flavour in UNDO:
         # undo / redo of a change and of a creation, each end of the undo transaction; an undo that fails after the
         # blob file was copied (P changed later); an undo racing with c1
         base = first + bs.other(2, 'b') + bs.other(1, 'v2')       # tids 3 (create), 4 (rewrite), 5 (P)
@@ -199,6 +201,11 @@ def directed(flavour, quick=False, packs_only=False):
             S.append(first + bs.undo(0, end) + bs.undo(0, end) + bs.undo(0) + bs.undo(0) + bs.pack(-2) + bs.pack(0))
             S.append(first + bs.rewrite(2, 'b') + bs.modify_p('v2') + bs.commit() + bs.other(1, 'v1') + bs.undo(-1, end) + bs.rewrite(2, 'a') + bs.commit('vote') + bs.pack(0))
             S.append(base + bs.append(2, 'a') + bs.undo(-1, end) + bs.commit() + bs.pack(0))
+            # two blobs changed by one transaction, undone / redone together; the undo aborted after undo() ran
+            two = bs.create(('a',)) + bs.create(('b',)) + bs.commit() + bs.rewrite(2, 'b') + bs.append(3, 'a') + bs.commit()
+            S.append(two + bs.undo(0, end) + bs.undo(0) + bs.undo(0, end) + bs.undo(-3, end) + bs.append(2, 'a') + bs.commit())
+            S.append(two + bs.undo(-1, end) + bs.undo(0, end) + bs.other(3, 'b') + bs.undo(-1, end) + bs.undo(0))
+            S.append(two + bs.rewrite(2, 'a') + bs.undo(0, end) + bs.commit() + bs.undo(-1, end) + bs.undo(0))
         for k in range(0, 4):
             for t in range(-3, 1):
                 if quick and (k + t) % 3:
@@ -255,7 +262,7 @@ def random_script(rng, flavour, nblob):
         else:
             s += bs.commit('finish' if r < 0.6 else rng.choice(ENDS[1:]))
         r = rng.random()
-        if r < 0.25 and flavour == 'mixin':
+        if r < 0.25 and flavour in UNDO:
             s += bs.undo(-rng.randint(0, 2), 'finish' if rng.random() < 0.7 else rng.choice(ENDS[1:]))
         elif r < 0.45:
             s += bs.pack(-rng.randint(0, 3) if rng.random() < 0.85 else rng.randint(1, 9))
@@ -438,7 +445,9 @@ def run(ctx):
         for keep in ((False, True) if fl == 'mixin' else (False,)):
             c = bd.consts(fl, NBlob=3, MaxTid=10, MaxSp=2, KeepOld=keep, **as_code[fl])
             tag = fl + ('-keepold' if keep else '')
-            rels = ['NextCommit', 'NextAbort', 'NextSp', 'NextPack'] + (['NextUndo'] if fl == 'mixin' else [])
+            rels = {'mixin': ['NextCommit', 'NextAbort', 'NextSp', 'NextPack', 'NextUndo'],
+                    'wrapmap': ['NextCommit', 'NextAbort', 'NextSp', 'NextPack'],
+                    'wrapfile': ['NextAbort', 'NextUndo']}[fl]
             for rel in rels:
                 n = nsim // 3 if rel == 'NextPack' else nsim
                 if keep and rel not in ('NextPack', 'NextUndo'):
@@ -448,8 +457,12 @@ def run(ctx):
                                          seed * 1009 + 31 * part + len(rel) + (7 if keep else 0), sc, seed + part)))
             c4 = dict(c, NBlob=4, MaxTid=14)
             d = directed(fl, q, packs_only=keep)
+            if fl == 'wrapfile' and q:
+                # what the third flavour adds is BlobStorage.undo: every undo scenario, a third of the rest
+                und = [x for x in d if any(e['a'] == 'UBegin' for e in x)]
+                d = und + [x for x in d if x not in und][::3]
             rng = random.Random('%s/%d/%s' % (fl, seed, keep))
-            rs = [random_script(rng, fl, 4) for _ in range(nrand // (2 if keep else 1))]
+            rs = [random_script(rng, fl, 4) for _ in range(nrand // (2 if keep or fl == 'wrapfile' else 1))]
             allscr = [('dir', d), ('rnd', rs)]
             for kind, scripts in allscr:
                 nchunk = max(1, round(len(scripts) / (75 if q else 150)))
@@ -477,7 +490,7 @@ def run(ctx):
             judge(ctx, out, cov)
     # vacuity: every action of the specification was replayed on each flavour it applies to
     for fl in FLAVOURS:
-        need = [x for x in bd.ALL_ACTIONS if fl == 'mixin' or not x.startswith('U')]
+        need = [x for x in bd.ALL_ACTIONS if (fl in UNDO or not x.startswith('U')) and (fl != 'wrapfile' or x != 'Pack')]
         miss = [x for x in need if not cov['actions'][fl].get(x)]
         if miss and not cov['mismatches']:
             raise RuntimeError('%s: actions never replayed: %s' % (fl, miss))
@@ -488,8 +501,8 @@ def run(ctx):
         'steps_compared': cov['steps'],
         'rule': 'behaviours of ZBlob (directed call sequences and seeded random call sequences evaluated by TLC through '
                 'ZBlobScript, TLC -simulate walks under NextCommit / NextAbort / NextSp / NextPack / NextUndo, TLC counterexamples) '
-                'replayed through real DB / Connection / Blob objects on FileStorage+blob_dir (pack_keep_old off and on) and on '
-                'BlobStorage(MappingStorage); distinct = distinct (flavour, call sequence); non-trivial = at least two committed '
+                'replayed through real DB / Connection / Blob objects on FileStorage+blob_dir (pack_keep_old off and on), on '
+                'BlobStorage(MappingStorage) and on BlobStorage(FileStorage); distinct = distinct (flavour, call sequence); non-trivial = at least two committed '
                 'transactions and an aborted commit, a pack, an undo or a savepoint rollback; after every call files / old / '
                 'dirty_oids / tmp / reads through a fresh and per-tid historical connections / c1 views / iterator are compared '
                 'with the TLC state',
